@@ -9,10 +9,14 @@ INTS = [
     b'319', b'320', b'639', b'640', b'32767', b'32768', b'65535', b'65536', b'1E38', b'1.7E38', b'-1.7E38',
     b'1D-39', b'3.5', b'-.5', b'1E10', b'-1E10', b'&HFFFF', b'&H8000', b'&O177777', b'X', b'I%', b'1/3',
     b'2^15', b'-2^15', b'1D308', b'.00001',
+    # machine ports and low-memory addresses with emulated behaviour
+    b'&H3CF', b'&H3C5', b'&H3C4', b'&H3CE', b'&H3D8', b'&H3D9', b'&H3DA', b'&H201', b'&H60', b'&H61', b'&H3F8', b'&H378',
+    b'1047', b'1050', b'1052', b'1054', b'1085', b'1097', b'1125', b'1126', b'1296', b'&H410', b'&H358', b'&H30', b'1450',
 ]
 STRS = [
     b'""', b'"A"', b'"ABC"', b'STRING$(255,"x")', b'CHR$(0)', b'CHR$(255)', b'CHR$(0)+CHR$(255)', b'"C:\\X"',
-    b'"*.*"', b'"A:"', b'"CAS1:X"', b'"KYBD:"', b'"SCRN:"', b'"LPT1:"', b'"COM1:"', b'A$', b'SPACE$(100)', b'"1,2"',
+    b'"*.*"', b'"A:"', b'"CAS1:X"', b'"KYBD:"', b'"SCRN:"', b'"LPT1:"', b'"COM1:"', b'"LPT2:"', b'"LPT3:X"', b'"COM2:"',
+    b'"CAS1:"', b'"@:"', b'"@:X"', b'"CON"', b'"nul"', b'"PRN"', b'"AUX"', b'"Z:X"', b'"B:"', b'A$', b'SPACE$(100)', b'"1,2"',
     b'"12:34:56"', b'"01-01-2000"', b'"DATA.TXT"', b'"PROG.BAS"', b'"PROGB"', b'"PROGP.BAS"', b'"RND.DAT"', b'"NOSUCH"', b'"..\\X"', b'"C:"',
     b'"AB:X"', b'":X"', b'"X=1"', b'"U10R10"', b'"CDEFGAB"', b'"MBO3L4C"', b'"###.##"', b'"&"', b'"!"',
     b'"\\  \\"', b'"a.b.c"', b'"LONGFILENAME.EXT"', b'CHR$(13)', b'CHR$(26)', b'"-1"', b'"99:99"', b'"13-32-1979"',
